@@ -190,7 +190,52 @@ theorem segments_start_on_moof (boxes : List Box) :
           exact hacc s (by simpa using hs)
     · intro x hx; exact hsub x (List.mem_cons_of_mem _ hx)
 
+/-- **indexing records the stored durations**: the durations of the indexed representation
+are the per-fragment sums of sample durations (a 0 sample duration = the `trex` default), the
+start number is the first `mfhd.sequence_number`, and for ≥ 2 fragments `mediaDuration` is
+their sum – for every fragment list. -/
+theorem load_durations (dflt : Nat) (frags : List Frag) :
+    (loadRep dflt frags).durs = frags.map (fragDur dflt) ∧
+    (2 ≤ frags.length → (loadRep dflt frags).mediaDuration = some ((frags.map (fragDur dflt)).sum)) ∧
+    (∀ f fs, frags = f :: fs → (loadRep dflt frags).startNumber = f.seq) := by
+  refine ⟨?_, ?_, ?_⟩
+  · simp [loadRep, foldl_loadStep_durs]
+  · intro h
+    have : frags.length + 1 > 2 := by omega
+    simp [loadRep, foldl_loadStep_durs, this]
+  · intro f fs hf
+    subst hf
+    simp only [loadRep, List.foldl_cons]
+    rw [foldl_loadStep_startNumber dflt fs _ f.seq (by simp [loadStep])]
+    rfl
+
+/-- **a file with consistent `tfdt` boxes** (`tfdt_k = t0 + Σ_{i<k} d_i`) is indexed with
+`start_time = t0` and `segment_duration = (t0 + Σ_{i<n-1} d_i) // (n-1)`: the decode time of every
+stored fragment is `start_time + P_k`, the assumption C02's `C02_time_tfdt` makes about stored
+files.  (Note the estimate includes `t0`: a non-zero first decode time inflates it.) -/
+theorem load_consistent (dflt t0 : Nat) (f : Frag) (fs : List Frag)
+    (hc : ConsistentFrom dflt t0 (f :: fs)) (h2 : 1 ≤ fs.length) :
+    (loadRep dflt (f :: fs)).startTime = t0 ∧
+    (loadRep dflt (f :: fs)).segmentDuration
+      = some ((t0 + (((f :: fs).dropLast).map (fragDur dflt)).sum) / fs.length) := by
+  constructor
+  · simp only [loadRep, List.foldl_cons]
+    simp only [ConsistentFrom] at hc
+    rw [foldl_loadStep_repStart dflt fs _ t0 (by simp [loadStep, hc.1])]
+    rfl
+  · have hs := (foldl_loadStep_consistent dflt (f :: fs) {} t0 (by simp) hc).1
+    have : (f :: fs).length + 1 > 2 := by simp; omega
+    simp only [loadRep, this, if_true, hs]
+    simp
+
 /-! ### non-vacuity and the excluded case -/
+
+example : ConsistentFrom 0 1000 [⟨1, some 1000, [240, 240]⟩, ⟨2, some 1480, [240, 240]⟩, ⟨3, some 1960, [100]⟩] := by
+  simp [ConsistentFrom, fragDur]
+
+example : loadRep 512 [⟨7, some 0, [0, 0, 0]⟩, ⟨8, none, [0, 0]⟩, ⟨9, none, [0, 0, 0]⟩]
+    = { durs := [1536, 1024, 1536], startNumber := 7, startTime := 0,
+        mediaDuration := some 4096, segmentDuration := some 1280 } := by decide
 
 example : index [⟨.ftyp, 0, 24⟩, ⟨.moov, 24, 600⟩, ⟨.moof, 624, 100⟩, ⟨.mdat, 724, 900⟩,
     ⟨.sidx, 1624, 44⟩, ⟨.moof, 1668, 100⟩, ⟨.mdat, 1768, 800⟩]
